@@ -5,6 +5,10 @@ import re
 from . import common as C
 
 
+# regular expressions with escaped parentheses / backslashes before a closing parenthesis (all read correctly by the pinned tree)
+SERDE_RX = [r"([^ ]*) ([^ ]*)", r"([A-Z]:\\\\)(.*)", r"(\\\\\\\\[a-z]+\\\\)([^ ]*)", r"^(\\d+)\\s(.*)$", r"(a|b)\\((c)\\)", r"([^ ]*) \\[([^\\]]*)\\]"]
+
+
 def pieces(sid, k, n, first_table=None):
     """the code pieces (one per source line) of statement sid"""
     s = str(sid)
@@ -15,6 +19,13 @@ def pieces(sid, k, n, first_table=None):
     if k == "tablens":
         return {2: [f"CREATE TABLE t{s} (a{s} int,", f"b{s} varchar(5))"],
                 3: [f"CREATE TABLE t{s} (", f"a{s} int, b{s} varchar(5)", ")"]}[n]
+    if k == "serde":
+        rx = SERDE_RX[sid % len(SERDE_RX)]
+        return {1: [f"CREATE TABLE t{s} (a{s} int, b{s} varchar(5)) ROW FORMAT SERDE 'org.apache.hadoop.hive.serde2.RegexSerDe' "
+                    f'WITH SERDEPROPERTIES ("input.regex" = "{rx}") STORED AS TEXTFILE;']}[n]
+    if k == "alter_rn":
+        t = first_table if first_table is not None else 1
+        return {1: [f'ALTER TABLE t{t} RENAME COLUMN "b{t}" TO "c{t}";']}[n]
     if k == "seq":
         return {1: [f"CREATE SEQUENCE sq{s} START 1;"], 2: [f"CREATE SEQUENCE sq{s}", f"START {s} INCREMENT 2;"]}[n]
     if k == "alter":
@@ -93,7 +104,7 @@ def render_line(l, stmts, seed, first_table):
 
 def first_table_of(stmts):
     for i, s in enumerate(stmts, 1):
-        if s["k"] in ("table", "tablens"):
+        if s["k"] in ("table", "tablens", "serde"):
             return i
     return None
 
@@ -116,7 +127,7 @@ def expected_entities(beh, stmts):
     for st in beh["expected"]:
         sid = st[0][1]
         k = stmts[sid - 1]["k"]
-        if k in ("table", "tablens"):
+        if k in ("table", "tablens", "serde"):
             tables[sid] = {"kind": "table", "name": f"t{sid}", "cols": [f"a{sid}", f"b{sid}"], "uniq": []}
             out.append(tables[sid])
         elif k == "seq":
@@ -124,6 +135,9 @@ def expected_entities(beh, stmts):
         elif k == "alter":
             ft = first_table_of(stmts)
             tables[ft]["uniq"].append(f"a{ft}")
+        elif k == "alter_rn":
+            ft = first_table_of(stmts)
+            tables[ft]["cols"] = [f'"c{ft}"' if c == f"b{ft}" else c for c in tables[ft]["cols"]]
     return out
 
 
